@@ -2,7 +2,7 @@
     (Addresses and offsets of header, length and elements inside the block are C05/C11's subject:
     LayoutProofs and the layout stream; here: the recorded length, the conversions, the refusal, the write-back.) *)
 From Coq Require Import NArith List Bool Arith.
-From TV Require Import Mech MechProofs MechLog MechProps.
+From TV Require Import Layout LayoutProofs SrcFacts Bits Conc Guard Cmp Serde Traits Mech MechProofs MechLog MechProps Extracted.
 Import ListNotations.
 Open Scope N_scope.
 
@@ -47,9 +47,36 @@ Example C10_replace_then_panic :
   nth 6 (snd r) [] = [0; 3; 3; 4; 5; 6; 99999999] /\ map b_alive (heap (ms (fst r))) = [false; true].
 Proof. vm_compute. split; reflexivity. Qed.
 
+(** the thin pointer's sized stand-in type ([... HeaderSlice<HeaderWithLength<H>, [T; 0]>]) puts the payload, the
+    header and the recorded length at the same offsets as the fat type, for EVERY header and element shape (any size,
+    any alignment) and every length: re-fattening with the stored length reads the right word *)
+Theorem C10_thin_stand_in_has_the_fat_offsets :
+  forall H T n L, layout_of (s_ArcInner (s_HeaderSlice (s_HeaderWithLength H) (Arr T n))) = Some L ->
+  let fat := s_HeaderSlice (s_HeaderWithLength H) (Arr T n) in
+  let thin := s_HeaderSlice (s_HeaderWithLength H) (Arr T 0) in
+  struct_field_off [s_usize; thin] 1 = struct_field_off [s_usize; fat] 1 /\
+  struct_field_off [s_HeaderWithLength H; Arr T 0] 0 = struct_field_off [s_HeaderWithLength H; Arr T n] 0 /\
+  struct_field_off [s_HeaderWithLength H; Arr T 0] 1 = struct_field_off [s_HeaderWithLength H; Arr T n] 1.
+Proof. exact thin_prefix_offsets. Qed.
+
+(** ... and the source declares exactly that stand-in, and the thin plumbing functions are the modelled ones *)
+Theorem C10_thin_pointee_is_the_stand_in : Extracted.thin_pointee_ok = true /\ Extracted.thin_forms_ok = true.
+Proof. split; reflexivity. Qed.
+
+(** the zero-length tail is needed: without it (or with an alignment-1 marker) the payload of an over-aligned element
+    type would be looked up at another offset (8 instead of 16 for a 16-aligned element behind a u64 header) *)
+Example C10_the_tail_carries_the_alignment :
+  let T := Prim 16 4 in let H := Prim 8 3 in
+  struct_field_off [s_usize; s_HeaderSlice (s_HeaderWithLength H) (Arr T 3)] 1 = Some 16 /\
+  struct_field_off [s_usize; s_HeaderWithLength H] 1 = Some 8 /\
+  struct_field_off [s_usize; s_HeaderSlice (s_HeaderWithLength H) (Prim 0 0)] 1 = Some 8.
+Proof. vm_compute. repeat split. Qed.
+
 Check C10_recorded_length_is_slice_length.
 Print Assumptions C10_recorded_length_is_slice_length.
 Print Assumptions C10_thin_view_is_fat_view.
 Print Assumptions C10_thin_fat_conversions_are_neutral.
 Print Assumptions C10_into_thin_refuses_wrong_length.
 Print Assumptions C10_with_arc_mut_writes_back.
+Print Assumptions C10_thin_stand_in_has_the_fat_offsets.
+Print Assumptions C10_thin_pointee_is_the_stand_in.
